@@ -172,6 +172,13 @@ bool StepScript(InterpreterEnv& env)
     auto& is_p2sh = env.is_p2sh;
     auto& serror = env.serror;
 
+    // each script (scriptSig, scriptPubKey, redeem script) is evaluated on its own: conditionals
+    // must be balanced at its end, and the alt stack does not carry over to the next script
+    if (!vfExec.empty()) {
+        if (!is_p2sh && env.successor_script.size() == 0) env.done = true; // this was the last script
+        return set_error(serror, SCRIPT_ERR_UNBALANCED_CONDITIONAL);
+    }
+
     if (is_p2sh) {
         if (stack.empty())
             return set_error(serror, SCRIPT_ERR_EVAL_FALSE);
@@ -197,6 +204,7 @@ bool StepScript(InterpreterEnv& env)
             CScript pubKey2(pubKeySerialized.begin(), pubKeySerialized.end());
             script = pubKey2;
             popstack(stack);
+            env.altstack.clear();
 
             pc = env.pbegincodehash = script.begin();
             pend = script.end();
@@ -210,6 +218,7 @@ bool StepScript(InterpreterEnv& env)
     if (env.successor_script.size()) {
         script = env.successor_script;
         env.successor_script.clear();
+        env.altstack.clear();
         pc = env.pbegincodehash = script.begin();
         pend = script.end();
         env.curr_op_seq++;
@@ -233,9 +242,6 @@ bool StepScript(InterpreterEnv& env)
 
     // we are at end; set done var
     env.done = true;
-
-    if (!vfExec.empty())
-        return set_error(serror, SCRIPT_ERR_UNBALANCED_CONDITIONAL);
 
     return set_success(serror);
 }
